@@ -430,7 +430,7 @@ func (in *Interp) intSafe(b *boundsInfo, t *Term) bool {
 		r = in.interval(b, t.Args[0]).ok && in.interval(b, t.Args[1]).ok
 	case OpULT:
 		x, y := in.interval(b, t.Args[0]), in.interval(b, t.Args[1])
-		r = x.ok && y.ok && x.lo >= 0 && y.lo >= 0
+		r = x.ok && y.ok && small(x) && small(y)
 	}
 	b.memo[-t.ID] = ival{ok: r}
 	return r
